@@ -87,6 +87,8 @@ def check(tier: str) -> Result:
                         res.add("C12.R1b", site, fn, f"Observation.{path}{tag} agrees with returned State.{path}", bool(rel),
                                 {"copy": "plain copy (same value)", "view": "computed from the state field"}.get(rel) or
                                 f"observation shows {txt(val, 4, 100)} but the returned state holds {txt(B, 4, 100)}")
+    from . import lbf_rules
+    n_lbf = lbf_rules.add_obligations(res, tree, "C12.R2", "observation")
     from . import views
     n_views = views.add_obligations(res, {ea.cls.name: ea for ea in analyses(tree)}, "C12.R2")
     res.analysed = {"environments": len(analyses(tree)), "functions": n_funcs, "observation_fields": n_fields, "view_wiring_obligations": n_views}
